@@ -133,6 +133,35 @@ Section Lines.
         * eapply loops_stop; [apply (skips_std_Past g full c WS Hc)|apply evals_sl_Past].
     - reflexivity.
   Qed.
+
+  (* the end of a statement: a line end and further blank lines before an admissible
+     continuation, or blanks / a comment up to the end of the input *)
+  Definition stmt_end (E k : pstr) : Prop :=
+    (exists l ls, E = l ++ concat ls /\ blank_line l /\ Forall blank_line ls /\ cont_ok k) \/
+    (k = [] /\ std_pre E = []).
+
+  Lemma evals_end full m cp E k :
+    nth_error g m = Some (mkNode (KMany true) [sl] true WS [c] cp []) ->
+    stmt_end E k -> evals g full m true (At (E ++ k)) (POk (after k) []).
+  Proof.
+    intros Hm [(l & ls & -> & Hl & Hls & Hk) | (-> & HE)].
+    - rewrite <- app_assoc. apply (evals_eol full m cp); assumption.
+    - rewrite app_nil_r. unfold after. rewrite std_pre_nil. apply (evals_eol_eof full m cp); assumption.
+  Qed.
+  Lemma end_nohead E k cs : stmt_end E k -> forallb (stopc WS) cs = true -> nohead cs (E ++ k).
+  Proof.
+    intros [(l & ls & -> & Hl & Hls & Hk) | (-> & HE)] Hcs.
+    - destruct l as [|d l].
+      + specialize (Hl []). cbn in Hl. discriminate.
+      + cbn. destruct (memc d cs) eqn:E; [|reflexivity].
+        pose proof (memc_forallb cs _ d Hcs E) as Hs. apply stopc_elim in Hs as (H1 & H2 & H3).
+        specialize (Hl []). cbn [app] in Hl. rewrite (std_pre_stop WS d _ H1 H2) in Hl.
+        injection Hl as -> _. discriminate.
+    - rewrite app_nil_r. destruct E as [|d E]; [exact I|]. cbn.
+      destruct (memc d cs) eqn:E'; [|reflexivity].
+      pose proof (memc_forallb cs _ d Hcs E') as Hs. apply stopc_elim in Hs as (H1 & H2 & H3).
+      rewrite (std_pre_stop WS d _ H1 H2) in HE. discriminate.
+  Qed.
 End Lines.
 
 Section Doc.
@@ -167,6 +196,17 @@ Section Doc.
     forall full b k, blanks WS b -> cont_ok k ->
       evals g full st true (At (b ++ y ++ k)) (POk (after k) t).
 
+  (* the text y, followed by any statement end, is a statement with tokens t *)
+  Definition body_ok (y : pstr) (t : list tok) : Prop :=
+    forall full b E k, blanks WS b -> stmt_end WS E k ->
+      evals g full st true (At (b ++ y ++ E ++ k)) (POk (after k) t).
+  Lemma body_stmt_ok y t l ls :
+    body_ok y t -> blank_line l -> Forall blank_line ls -> stmt_ok (y ++ l ++ concat ls) t.
+  Proof.
+    intros Hy Hl Hls full b k Hb Hk. rewrite <- !app_assoc.
+    rewrite (app_assoc l (concat ls) k). apply Hy; [exact Hb|]. left. exists l, ls. repeat split; assumption.
+  Qed.
+
   Record item := mkItem { it_blanks : pstr; it_text : pstr; it_toks : list tok }.
   Definition item_ok (it : item) : Prop :=
     blanks WS (it_blanks it) /\ stmt_start (it_text it) /\ stmt_ok (it_text it) (it_toks it).
@@ -177,29 +217,53 @@ Section Doc.
     intros Hb Hy. destruct y as [|d y]; [destruct Hy|]. destruct Hy as (Hw & Hh & _).
     rewrite (std_pre_blanks WS b _ Hb). cbn [app]. apply (std_pre_stop WS); assumption.
   Qed.
-  Lemma cont_ok_items its tl : Forall item_ok its -> std_pre tl = [] -> cont_ok (flatten its ++ tl).
+  (* the same, for the continuation the statement actually has in a document *)
+  Definition item_shape (it : item) : Prop := blanks WS (it_blanks it) /\ stmt_start (it_text it).
+  Definition item_at (it : item) (k : pstr) : Prop :=
+    forall full b, blanks WS b -> evals g full st true (At (b ++ it_text it ++ k)) (POk (after k) (it_toks it)).
+  Fixpoint items_ok (its : list item) (tl : pstr) : Prop :=
+    match its with
+    | [] => True
+    | it :: r => item_shape it /\ item_at it (flatten r ++ tl) /\ items_ok r tl
+    end.
+
+  Lemma body_item_at_eof b y t E :
+    body_ok y t -> std_pre E = [] -> item_at (mkItem b (y ++ E) t) [].
+  Proof.
+    intros Hy HE full b' Hb'. cbn [it_text it_toks]. rewrite <- app_assoc.
+    apply Hy; [exact Hb'|]. right. split; [reflexivity|exact HE].
+  Qed.
+
+  Lemma cont_ok_shapes its tl : Forall item_shape its -> std_pre tl = [] -> cont_ok (flatten its ++ tl).
   Proof.
     intros Hits Htl. unfold PegDoc.cont_ok. destruct its as [|it its]; cbn [flatten flat_map app].
     - rewrite Htl. exact I.
-    - inversion Hits as [|? ? (Hb & Hy & _) _]; subst. rewrite <- !app_assoc.
+    - inversion Hits as [|? ? (Hb & Hy) _]; subst. rewrite <- !app_assoc.
       rewrite (std_pre_start _ _ _ Hb Hy). destruct (it_text it) as [|d y]; [destruct Hy|].
       cbn. apply Hy.
   Qed.
-  Lemma after_items it its tl : item_ok it -> after (flatten (it :: its) ++ tl) = At (flatten (it :: its) ++ tl).
+  Lemma items_ok_of_forall its tl : Forall item_ok its -> std_pre tl = [] -> items_ok its tl.
   Proof.
-    intros (Hb & Hy & _). unfold PegDoc.after. cbn [flatten flat_map]. rewrite <- !app_assoc.
+    intros Hits Htl. induction Hits as [|it its (Hb & Hy & Hok) Hits IH]; cbn; [exact I|].
+    split; [split; assumption|]. split; [|exact IH].
+    intros full b Hbb. apply Hok; [exact Hbb|]. apply cont_ok_shapes; [|exact Htl].
+    clear -Hits. induction Hits as [|? ? (Hb & Hy & _) _ IH]; constructor; [split; assumption|exact IH].
+  Qed.
+  Lemma after_items it its tl : item_shape it -> after (flatten (it :: its) ++ tl) = At (flatten (it :: its) ++ tl).
+  Proof.
+    intros (Hb & Hy). unfold PegDoc.after. cbn [flatten flat_map]. rewrite <- !app_assoc.
     rewrite (std_pre_start _ _ _ Hb Hy). destruct (it_text it) as [|d y]; [destruct Hy|]. reflexivity.
   Qed.
 
   (* the loop of OneOrMore(stmt) *)
-  Lemma loops_stmts full its : forall tl acc, Forall item_ok its -> std_pre tl = [] ->
+  Lemma loops_stmts full its : forall tl acc, items_ok its tl -> std_pre tl = [] ->
     loops g full [c] st (after (flatten its ++ tl)) acc (POk Past (acc ++ flat_map it_toks its)).
   Proof.
     induction its as [|it its IH]; intros tl acc Hits Htl.
     - cbn [flatten flat_map app]. unfold PegDoc.after. rewrite Htl, app_nil_r.
       eapply loops_stop; [apply (skips_std_Past g full c WS Hc)|apply Hst_past].
-    - inversion Hits as [|? ? Hit Hits']; subst.
-      rewrite (after_items it its tl Hit). destruct Hit as (Hb & Hy & Hok).
+    - destruct Hits as (Hsh & Hat & Hits').
+      rewrite (after_items it its tl Hsh). destruct Hsh as (Hb & Hy).
       cbn [flatten flat_map]. rewrite <- !app_assoc.
       eapply loops_step.
       + apply (skips_std g full c WS Hc).
@@ -207,27 +271,28 @@ Section Doc.
         cbn [app]. rewrite (std_skip_ign_stop WS _ d _ Hb Hw Hh).
         change (d :: y ++ flat_map (fun it0 => it_blanks it0 ++ it_text it0) its ++ tl)
           with ((d :: y) ++ flatten its ++ tl).
-        apply Hok; [exact Hb|]. apply cont_ok_items; assumption.
+        unfold item_at in Hat. rewrite Ey in Hat. apply Hat. exact Hb.
       + cbn [flat_map]. rewrite app_assoc. apply IH; assumption.
   Qed.
 
   (* ---- the document theorem ---- *)
-  Theorem document_concat_gen pls its tl :
-    Forall blank_line pls -> Forall item_ok its -> its <> [] -> std_pre tl = [] ->
+  Theorem document_concat_items pls its tl :
+    Forall blank_line pls -> items_ok its tl -> its <> [] -> std_pre tl = [] ->
     let D := concat pls ++ flatten its ++ tl in
     evals g D root true (At D) (POk Past (flat_map it_toks its)).
   Proof.
     intros Hpls Hits Hne Htl D.
     destruct its as [|it its]; [congruence|]. clear Hne.
-    inversion Hits as [|? ? Hit Hits']; subst.
+    destruct Hits as (Hit & Hat & Hits').
     set (B := flatten (it :: its) ++ tl) in *.
     assert (HB : std_pre B = it_text it ++ flatten its ++ tl).
-    { destruct Hit as (Hb & Hy & _). unfold B. cbn [flatten flat_map]. rewrite <- !app_assoc.
+    { destruct Hit as (Hb & Hy). unfold B. cbn [flatten flat_map]. rewrite <- !app_assoc.
       apply std_pre_start; assumption. }
     assert (HBne : exists d r, std_pre B = d :: r /\ N.eqb d NL = false).
-    { rewrite HB. destruct Hit as (_ & Hy & _). destruct (it_text it) as [|d y]; [destruct Hy|].
+    { rewrite HB. destruct Hit as (_ & Hy). destruct (it_text it) as [|d y]; [destruct Hy|].
       exists d, (y ++ flatten its ++ tl). split; [reflexivity|apply Hy]. }
-    assert (HcontB : cont_ok B) by (apply cont_ok_items; assumption).
+    assert (HcontB : cont_ok B).
+    { unfold PegDoc.cont_ok. destruct HBne as (d & r & E & Hd). rewrite E. exact Hd. }
     assert (HafterB : after B = At B) by (apply after_items; assumption).
     (* position after the header: the first statement, possibly with its leading blanks *)
     assert (Hhead : exists pz, (pz = At B \/ pz = At (std_pre B)) /\
@@ -262,10 +327,9 @@ Section Doc.
     assert (Hfirst : forall pz', (pz' = At B \/ pz' = At (std_pre B)) ->
               evals g D st true pz' (POk (after (flatten its ++ tl)) (it_toks it))).
     { intros pz' [->| ->].
-      - destruct Hit as (Hb & Hy & Hok). unfold B. cbn [flatten flat_map]. rewrite <- !app_assoc.
-        apply Hok; [exact Hb|apply cont_ok_items; assumption].
-      - rewrite HB. destruct Hit as (Hb & Hy & Hok).
-        apply (Hok D [] (flatten its ++ tl)); [reflexivity|apply cont_ok_items; assumption]. }
+      - destruct Hit as (Hb & Hy). unfold B. cbn [flatten flat_map]. rewrite <- !app_assoc.
+        apply Hat. exact Hb.
+      - rewrite HB. apply (Hat D []). reflexivity. }
     assert (Hom' : evals g D om true pz (POk Past (flat_map it_toks (it :: its)))).
     { eapply evals_eq.
       - eapply evals_node; [exact Hom| |].
@@ -291,5 +355,14 @@ Section Doc.
           eapply evals_node_ok; [exact Hse|cbn; apply (pre_to_Past g D c WS Hc); right; reflexivity|].
           apply impls_leaf. cbn. reflexivity.
     - cbn. rewrite app_nil_r. reflexivity.
+  Qed.
+
+  Theorem document_concat_gen pls its tl :
+    Forall blank_line pls -> Forall item_ok its -> its <> [] -> std_pre tl = [] ->
+    let D := concat pls ++ flatten its ++ tl in
+    evals g D root true (At D) (POk Past (flat_map it_toks its)).
+  Proof.
+    intros Hpls Hits Hne Htl. apply document_concat_items; try assumption.
+    apply items_ok_of_forall; assumption.
   Qed.
 End Doc.
